@@ -4,9 +4,16 @@ use crate::{
     GDResult,
 };
 
+#[cfg(not(gamedig_verif))]
 use std::{
     io::{Read, Write},
     net::{self, SocketAddr},
+};
+#[cfg(gamedig_verif)]
+use {
+    crate::verif_hook::net,
+    std::io::{Read, Write},
+    std::net::SocketAddr,
 };
 
 const DEFAULT_PACKET_SIZE: usize = 1024;
